@@ -37,8 +37,11 @@ syscalls/wait4.c syscalls/write.c teams.c threadqueues/sherwood_threadqueues.c
 tls.c touch.c workers.c
 """.split()
 
+# generated headers (config.h, qthread/common.h, qthread/qthread-int.h) normally live in /repo/include (ignored
+# files of the in-tree configure run); committed copies are the fallback for a tree that lacks them
+_GENH = os.path.join(VERIF, "harness", "gen_headers")
 CPPFLAGS = ["-DHAVE_CONFIG_H", "-I%s/src" % REPO, "-I%s/include" % REPO,
-            "-I%s/include/qthread" % REPO]
+            "-I%s/include/qthread" % REPO, "-idirafter", _GENH, "-idirafter", _GENH + "/qthread"]
 CFLAGS = ["-O1", "-g", "-w", "-std=gnu99"]
 LDLIBS = ["-lpthread", "-lhwloc", "-lm"]
 
